@@ -10,6 +10,7 @@ package command
 // probe of each chunk (vs.Block on the wire log), lets the chosen latency pass and injects the reply.
 
 import (
+	"os"
 	"fmt"
 	"strings"
 	"time"
@@ -390,6 +391,51 @@ func verifC16(c *drv.Ctx) {
 			default:
 				c.Outcome(fmt.Sprintf("generator-fails/%s/%d/ret=%v", cmd.kind, vi, time.Duration(run.RetT)))
 			}
+		}
+	}
+	// the address file vanishes while the scan runs: with -p it is opened once per port, the second open
+	// fails. The error is reported, nothing more can be sent, and the command still comes to its end
+	for _, cmd := range c01cmds {
+		if !cmd.ports || !cmd.file {
+			continue
+		}
+		idx++
+		if !c.Mine(idx) || c.Expired() {
+			continue
+		}
+		args := append(append([]string{}, cmd.args...), "-p", "80-82", "-f", "{DIR}/a.jsonl", "--json", "--exit-delay", "300ms")
+		if cmd.kind == "app" {
+			args = append(args, "-w", "1")
+		}
+		sc := &vE2ESpec{Args: args, Files: map[string]string{"a.jsonl": `{"ip":"10.0.1.1"}` + "\n"}, Horizon: 5000000, Positive: func(string, uint16) bool { return true }}
+		if cmd.kind != "app" {
+			sc.Stdin = vGatewayCache
+		}
+		sc.Net = func(r *vE2ERun) {
+			vs.Block("first-probe", func() bool { return len(zzvenv.W.Written)+len(r.Probes) >= 1 }, func() {})
+			os.Remove(r.Dir + "/a.jsonl")
+		}
+		run, x := vE2EOnce(sc)
+		c.Eval(1)
+		c.Nontrivial(1)
+		c.R.Transitions += int64(x.Steps)
+		name := fmt.Sprintf("%s -p 80-82 -f <one address>, the file is removed after the first probe", cmd.name)
+		key := fmt.Sprintf("exitdelay:file-vanishes:%s", cmd.name)
+		rep := map[string]any{"part": "c16", "args": sc.Args}
+		n := len(run.Frames) + len(run.Probes)
+		switch {
+		case len(x.Crashes) > 0:
+			c.Fail(key+":crash", fmt.Sprintf("%s: crash: %s", name, x.Crashes[0].Value), rep)
+		case x.Deadlock || x.Livelock || !run.Ret:
+			c.Fail(key+":hang", fmt.Sprintf("%s: the target file cannot be opened again for the next port; the error ends the generation, yet the command never returns (parked: %v)", name, x.Blocked), rep)
+		case run.RetT > int64(300*time.Millisecond):
+			c.Fail(key+":late", fmt.Sprintf("%s: the command returned at %v, later than the exit delay of 300ms after the last probe (at 0)", name, time.Duration(run.RetT)), rep)
+		case n < 1 || n > 3:
+			c.Fail(key+":probes", fmt.Sprintf("%s: %d probes", name, n), rep)
+		case n < 3 && run.Err == "" && len(run.vErrRecords()) == 0:
+			c.Fail(key+":silent", fmt.Sprintf("%s: %d of 3 probes were made and neither an error status nor an error record says why", name, n), rep)
+		default:
+			c.Outcome(fmt.Sprintf("file-vanishes/%s/probes=%d/ret=%v", cmd.kind, n, time.Duration(run.RetT)))
 		}
 	}
 	// schedules
